@@ -83,6 +83,20 @@ fn run_behaviour(route: &str, ivs: &[Iv], chars: &[u32], sets: &[Iv]) -> Value {
                 let (cq, sq) = queries(&p, chars, sets);
                 json!({"op":"part","route":route,"ivs":ivs_json(ivs),"res":"ok","steps":steps,"chars":cq,"sets":sq})
             }
+            "list+push" => {
+                // a mixed history: the first half through try_from_list (given in reverse order), the rest pushed
+                let k = (ivs.len() + 1) / 2;
+                let mut first: Vec<CharSet> = ivs[..k].iter().map(|&(a, b)| CharSet::range(a, b)).collect();
+                first.reverse();
+                let mut p = CharPartition::try_from_list(&first).map_err(|e| format!("{:?}", e)).expect("disjoint by construction");
+                let mut steps = vec![proj(&p)];
+                for &(a, b) in &ivs[k..] {
+                    p.push(a, b);
+                    steps.push(proj(&p));
+                }
+                let (cq, sq) = queries(&p, chars, sets);
+                json!({"op":"part","route":"list+push","k":k,"ivs":ivs_json(ivs),"res":"ok","steps":steps,"chars":cq,"sets":sq})
+            }
             _ => {
                 let list: Vec<CharSet> = ivs.iter().map(|&(a, b)| CharSet::range(a, b)).collect();
                 let r1 = CharPartition::try_from_list(&list);
@@ -307,6 +321,9 @@ pub fn drive(a: &Args) {
         for _ in 0..4 {
             chars.push(rng.ch());
         }
+        if ivs.len() >= 2 {
+            out.emit(run_behaviour("list+push", &ivs, &chars, &sets));
+        }
         match i % 3 {
             0 => out.emit(run_behaviour("push", &ivs, &chars, &sets)),
             1 if !ivs.is_empty() => out.emit(run_behaviour("from_set", &ivs, &chars, &sets)),
@@ -331,6 +348,25 @@ pub fn drive(a: &Args) {
             let third = random_partition(&mut rng, 5);
             mo.emit(mergelist_record(&[ivs.clone(), other.clone(), third.clone()]));
             mo.emit(mergelist_record(&[third, ivs.clone(), other]));
+        }
+    }
+    // mixed histories on small shapes: start at 0 or not, interior gap or not, last push ending at MAX_CHAR or not
+    for start0 in [true, false] {
+        for gap in [true, false] {
+            for to_max in [true, false] {
+                for n in 2..=4u32 {
+                    let mut ivs: Vec<Iv> = vec![];
+                    let mut lo = if start0 { 0 } else { 2 };
+                    for k in 0..n {
+                        let hi = if k == n - 1 && to_max { MAX_CHAR } else { lo + 2 };
+                        ivs.push((lo, hi));
+                        lo = hi + if gap && k == 0 { 2 } else { 1 };
+                    }
+                    let chars: Vec<u32> = vec![0, 1, 2, 3, 4, 5, 6, 7, 8, 9, 10, MAX_CHAR - 1, MAX_CHAR];
+                    let sets: Vec<Iv> = vec![(0, 0), (0, MAX_CHAR), (3, 4), (4, 4), (5, MAX_CHAR), (MAX_CHAR, MAX_CHAR)];
+                    out.emit(run_behaviour("list+push", &ivs, &chars, &sets));
+                }
+            }
         }
     }
     // long partitions (binary-search depth grows with the length): every interval queried at its own boundaries
